@@ -85,7 +85,9 @@ def per_row_filtering_in_index_getters(ctx):
                 bad.append("no intersection with the measurement's positions")
             for t in tests:
                 st = stmt_of(t)
-                if not (isinstance(st, ast.If) and in_subtree(t, st.test)):
+                in_comp_if = any(isinstance(a_, ast.comprehension) and any(in_subtree(t, c_) for c_ in a_.ifs)
+                                 for a_ in ancestors(t))
+                if not ((isinstance(st, ast.If) and in_subtree(t, st.test)) or in_comp_if):
                     bad.append(f"`{norm(t, 50)}` is not used as the condition for adding the key/value")
         yield Ob("C07.R3", ["C07", "C10"], f"{f.qual} | measurement filtering", not bad,
                  "; ".join(bad[:2]) if bad else
